@@ -292,6 +292,18 @@ fn probe_isolated(prop: &'static str, seed: u64, hang_budget: Duration) -> Optio
     let reader = std::thread::spawn(move || {
         for line in BufReader::new(stdout).lines().map_while(|l| l.ok()) {
             let f: Vec<&str> = line.split(' ').collect();
+            if f.len() == 2 && (f[0] == "QB" || f[0] == "QE") {
+                if let Ok(i) = f[1].parse::<u64>() {
+                    let mut g = inf2.lock().unwrap();
+                    if f[0] == "QB" {
+                        g.insert(i | (1 << 40), (255, String::new()));
+                    } else {
+                        g.remove(&(i | (1 << 40)));
+                    }
+                    *last2.lock().unwrap() = Instant::now();
+                }
+                continue;
+            }
             if f.len() >= 3 {
                 if let (Ok(i), Ok(p)) = (f[1].parse::<u64>(), f[2].parse::<u8>()) {
                     let mut g = inf2.lock().unwrap();
@@ -327,6 +339,14 @@ fn probe_isolated(prop: &'static str, seed: u64, hang_budget: Duration) -> Optio
     // attribute: re-execute the probes that were in flight, each alone
     let cands: Vec<(u64, (u8, String))> = inflight.lock().unwrap().iter().map(|(k, v)| (*k, v.clone())).collect();
     for (i, (p, hexpat)) in cands {
+        if p == 255 {
+            // an opcode-pair probe
+            let Some(sc) = engine::pair_probe_scenario((i & !(1 << 40)) as usize) else { continue };
+            if let Some(v) = exec_isolated(prop, &sc, hang_budget).into_iter().next() {
+                return Some(Found { index: i, scenario: sc, violation: v });
+            }
+            continue;
+        }
         let pat = crate::desc::unhex(&hexpat).unwrap_or_default();
         let sc = engine::probe_scenario(p, &pat);
         if let Some(v) = exec_isolated(prop, &sc, hang_budget).into_iter().next() {
